@@ -351,12 +351,12 @@ def atoms_from_rdkit_mol(rdkit_mol_obj: Chem.Mol, conf_id: int = 0) -> Atoms:
     )
     mol_file_atoms = Atoms()
 
-    # Extract atoms from the mol block
-    for line in mol_block_lines:
-        split_line = line.split()
+    # Extract atoms from the mol block, which follow the 3 header lines and
+    # the counts line. NOTE: The number of items in an atom line can vary
+    n_atoms = rdkit_mol_obj.GetNumAtoms()
 
-        if len(split_line) == 16:
-            x, y, z, atom_label = split_line[:4]
-            mol_file_atoms.append(Atom(atom_label, x=x, y=y, z=z))
+    for line in mol_block_lines[4 : 4 + n_atoms]:
+        x, y, z, atom_label = line.split()[:4]
+        mol_file_atoms.append(Atom(atom_label, x=x, y=y, z=z))
 
     return mol_file_atoms
